@@ -415,6 +415,23 @@ impl GuiState {
                             format!("illegal-bestmove {fen}"),
                         );
                     }
+                    // `bestmove X ponder Y`: Y must be a legal reply to X
+                    let toks: Vec<&str> = rest.split_whitespace().collect();
+                    if toks.len() >= 3 && toks[1] == "ponder" {
+                        probe(&mut self.probes, "ponder_move_checked");
+                        let mut g = o.monitor.root.clone();
+                        if let Some(m) = oracle::find_move(&g, &mv) {
+                            g.make_move(m);
+                            if oracle::find_move(&g, toks[2]).is_none() {
+                                let fen = o.monitor.root.to_fen();
+                                self.violation(
+                                    "illegal-ponder",
+                                    format!("`{line}`: the ponder move is not a legal reply to the best move in {fen}"),
+                                    format!("illegal-ponder {fen}"),
+                                );
+                            }
+                        }
+                    }
                     if o.monitor.infos == 0 {
                         probe(&mut self.probes, "bestmove_without_any_info_line");
                     }
